@@ -67,7 +67,7 @@ public:
     ~ThreadPool()
     {
       Job job = {0, 0};
-      for (PoolList<ThreadContext>::Iterator i = _threads.begin(), end = _threads.end(); i != end; ++i)
+      for (usize i = _threadCount; i > 0; --i) // one terminate job per running worker (_threads may still list workers that have retired)
       {
         while (!_queue.push(job))
         {
